@@ -283,6 +283,9 @@ SUFFIX_DICT = {
 }
 for _k in ("GolangVersion", "ComposerVersion", "NginxVersion"):
     SUFFIX_DICT[_k] = SUFFIX_DICT["SemverVersion"]
+# composer stability flags (dev, alpha, beta, RC, stable and the patch-level tags p / pl / patch) and go's +incompatible
+SUFFIX_DICT["ComposerVersion"] = SUFFIX_DICT["SemverVersion"] + ["-p1", "-pl2", "-patch1", "-dev", "-RC2", "-stable", "-p", "-patch"]
+SUFFIX_DICT["GolangVersion"] = SUFFIX_DICT["SemverVersion"] + ["+incompatible", "-0.20200101000000-abcdef123456"]
 SUFFIX_DICT["AlpineLinuxVersion"] = SUFFIX_DICT["GentooVersion"]
 SUFFIX_DICT["OpensslVersion"] = SUFFIX_DICT["LegacyOpensslVersion"] + SUFFIX_DICT["SemverVersion"][:6]
 SUFFIX_DICT["GenericVersion"] = [".0", "a", "-1"]
